@@ -23,6 +23,22 @@ is also too large in the spec's sense), user writes stay inside the newest page.
 needs an aligned payload base (`blocks_aligned_absolute`) — the allocator guarantees that only up
 to 16, which is known finding M6. -/
 namespace CC.Properties.C13
+/-! ### Two readings fixed here (DESIGN, readings of C13)
+
+* **"used/free accounting matches the blocks handed out."**  `cc_dynamic_pool_used_bytes` counts
+  every *older* page **in full** (its whole payload, used or not) plus the offset of `free_ptr` in
+  the newest page.  What is true, and proved, is therefore (`used_accounting_exact`):
+  `used = Σ sizes of the older pages + offset in the newest page` exactly;
+  `Σ reserved sizes of all live blocks ≤ used ≤ Σ page sizes`; and **equality**
+  `used = Σ reserved sizes of the live blocks` as long as the pool has a single page (always, for a
+  fixed pool; `fixed_packed_used_is_sum`: = Σ request sizes when packed).  For an expandable pool
+  that has grown the clause is an *inequality*: the unused tail of an older page counts as used.
+* **A request equal to the page size.**  The library refuses `size >= top_page_size`, so a request
+  *equal* to the newest page's size returns NULL even on an empty page; `Spec.DPool.malloc` records
+  this behaviour (it is what the refinement theorems are about).  The property text only demands NULL
+  *beyond* the configured size, so the correspondence check gives **no spec opinion** (`S ?`) for a
+  request `n ≥ top size` that would fit the newest page's free bytes or, for an expandable pool, the
+  next page (`Driver/DynamicPool.noOpinion`); a library serving it would not be flagged at L1. -/
 open CC CC.Spec
 open CC.Spec.DPool (Op)
 open CC.DynamicPool (OpOk RunOk)
@@ -378,6 +394,24 @@ theorem used_vs_blocks (s : DPool) (h : s.WF) :
     (s.fixed = true → s.used = spanLen s.top.blocks) :=
   ⟨(Spec.DPoolFacts.used_bounds s h).1, (Spec.DPoolFacts.used_bounds s h).2,
    fun hf => (Spec.DPoolFacts.fixed_used_exact s h hf).2⟩
+
+/-- **The accounting that is exactly true** (the library's definition of `used`): `used` is the sizes
+of the older pages in full plus what is reserved in the newest page; the live blocks of all pages
+reserve at most `used`; with a single page the two coincide -/
+theorem used_accounting_exact (s : DPool) (h : s.WF) :
+    s.used = pagesSize s.pages.tail + spanLen s.top.blocks ∧
+    Spec.DPoolFacts.totalSpan s.pages ≤ s.used ∧
+    (s.pages.length = 1 → s.used = Spec.DPoolFacts.totalSpan s.pages) := by
+  refine ⟨by rw [(used_plus_free s h).1]; omega, (Spec.DPoolFacts.used_bounds s h).1, ?_⟩
+  intro hl
+  obtain ⟨hne, _, _⟩ := h
+  cases hp : s.pages with
+  | nil => exact (hne hp).elim
+  | cons p ps =>
+    rw [hp] at hl
+    have : ps = [] := by cases ps with | nil => rfl | cons _ _ => simp at hl
+    subst this
+    simp [DPool.used, DPool.topUsed, DPool.top, hp, Spec.DPoolFacts.totalSpan, pagesSize]
 
 theorem fixed_packed_used_is_sum (grow : Nat → Nat) (fresh size ab : Nat) (bytes : List Nat) (hb : bytes.length = size)
     (ops : List Op) :
